@@ -21,6 +21,7 @@ import (
 	"net/http"
 	"net/http/httptest"
 	"os"
+	"path/filepath"
 	"reflect"
 	"sort"
 	"strings"
@@ -111,6 +112,21 @@ func authenticator(r *http.Request, _ *http.Server) (*api.AuthToken, error) {
 // ---------- handlers ----------
 
 var permAlpha = []int{pNotFound, pDynamic, pNotSupported, pAnyone, pUser, pAdmin, pSelf, 5, -3}
+
+// grantAlpha: what the authenticator may answer (superset of permAlpha: far out-of-range values too).
+var grantAlpha = []int{pNotFound, pDynamic, pNotSupported, pAnyone, pUser, pAdmin, pSelf, 5, -3, 100, -100}
+
+// halfValid: tokens that are valid for one method class and out of range / a special constant for the other.
+// Sessions for them are obtained with a request of the valid class and then presented for the other class.
+var halfValid = []struct {
+	Name   string
+	Method string
+	T      tok
+}{
+	{"sR2W100", "GET", tok{pUser, 100}}, {"sR3Wm3", "GET", tok{pAdmin, -3}}, {"sR2W0", "GET", tok{pUser, pNotSupported}}, {"sR3Wm2", "GET", tok{pAdmin, pNotFound}}, {"sR4W5", "GET", tok{pSelf, 5}},
+	{"sR100W2", "POST", tok{100, pUser}}, {"sR5W3", "POST", tok{5, pAdmin}}, {"sR0W3", "POST", tok{pNotSupported, pAdmin}}, {"sRm1W3", "POST", tok{pDynamic, pAdmin}}, {"sRm100W4", "POST", tok{-100, pSelf}},
+}
+
 var epPerms = []int{pDynamic, pNotSupported, pAnyone, pUser, pAdmin, pSelf}
 var epKinds = []string{"ep-action", "ep-data", "ep-struct", "ep-record", "ep-handler"}
 
@@ -225,6 +241,10 @@ func (o op) String() string {
 		return "pass(" + o.D + ")"
 	case "clean":
 		return "cleanSessions"
+	case "cfg-unwritable":
+		return "makeConfigFileUnwritable"
+	case "cfg-writable":
+		return "makeConfigFileWritable"
 	case "req":
 		return "req{" + o.Req.short() + "}"
 	}
@@ -277,6 +297,9 @@ type world struct {
 	nextSess int
 	steps    int64
 	verbose  bool // replay: print what was observed
+
+	dataDir    string // data root (the configuration file lives here)
+	cfgBlocked bool   // the configuration file cannot be saved at the moment
 }
 
 var theWorld *world
@@ -302,6 +325,7 @@ var inFlightWhat atomic.Value
 // fresh brings the real package and the model to the initial state: no keys,
 // dev mode off, no sessions, no authenticator.
 func (w *world) fresh() {
+	w.setConfigWritable(true)
 	if len(w.cfgKeys) > 0 || w.cfgKeys == nil {
 		w.setKeys(nil)
 	}
@@ -316,8 +340,25 @@ func (w *world) fresh() {
 	w.started = time.Now()
 }
 
+// setConfigWritable(false) puts a directory where the configuration file is saved, so that
+// config.SaveConfig fails; the setters then return an error, but the configuration they set is
+// what is configured from then on (the model follows the setter).
+func (w *world) setConfigWritable(ok bool) {
+	if ok == !w.cfgBlocked {
+		return
+	}
+	path := filepath.Join(w.dataDir, "config.json")
+	_ = os.RemoveAll(path)
+	if !ok {
+		if err := os.Mkdir(path, 0o755); err != nil {
+			w.c.EngineError("cannot block the config file: %v", err)
+		}
+	}
+	w.cfgBlocked = !ok
+}
+
 func (w *world) setDev(on bool) {
-	if err := config.SetConfigOption(config.CfgDevModeKey, on); err != nil {
+	if err := config.SetConfigOption(config.CfgDevModeKey, on); err != nil && !w.cfgBlocked {
 		w.c.EngineError("SetConfigOption(devMode): %v", err)
 	}
 	w.m.Dev = on
@@ -330,7 +371,7 @@ func (w *world) setKeys(specs []keySpec) {
 		cs := s.configString(now)
 		vals = append(vals, cs)
 	}
-	if err := config.SetConfigOption(api.CfgAPIKeys, vals); err != nil {
+	if err := config.SetConfigOption(api.CfgAPIKeys, vals); err != nil && !w.cfgBlocked {
 		w.c.EngineError("SetConfigOption(apiKeys): %v", err)
 	}
 	if err := api.VerifUpdateAPIKeys(); err != nil {
@@ -490,6 +531,10 @@ func (w *world) apply(o op, wit func(extra map[string]any) any) {
 	case "clean":
 		api.VerifCleanSessions()
 		w.m.clean()
+	case "cfg-unwritable":
+		w.setConfigWritable(false)
+	case "cfg-writable":
+		w.setConfigWritable(true)
 	case "req":
 		v := w.m.judge(o.Req)
 		ob := w.exec(o.Req)
@@ -702,6 +747,11 @@ func tableWorld(dev, clean bool) []op {
 		{Op: "req", Req: dyn(authnSpec{Kind: "tok", R: pUser, W: pAdmin}), Save: "sRuWa"},
 		{Op: "req", Req: dyn(authnSpec{Kind: "tok", R: pNotSupported, W: 5}), Save: "sInvalid"},
 	}
+	for _, hv := range halfValid {
+		rq := dyn(authnSpec{Kind: "tok", R: hv.T.R, W: hv.T.W})
+		rq.Method = hv.Method
+		h = append(h, op{Op: "req", Req: rq, Save: hv.Name})
+	}
 	if clean {
 		h = append(h, op{Op: "clean"})
 	}
@@ -772,6 +822,16 @@ func credentials(full bool) []cred {
 		{Name: "cookie-read-user-write-admin", Cookie: ck("$s:sRuWa"), Authn: unset},
 		{Name: "cookie-session-with-invalid-token", Cookie: ck("$s:sInvalid"), Authn: unset},
 		{Name: "cookie-expired", Cookie: ck("$s:sOld"), Authn: unset},
+		{Name: "cookie-half-valid-sR2W100", Cookie: ck("$s:sR2W100"), Authn: unset},
+		{Name: "cookie-half-valid-sR3Wm3", Cookie: ck("$s:sR3Wm3"), Authn: unset},
+		{Name: "cookie-half-valid-sR2W0", Cookie: ck("$s:sR2W0"), Authn: unset},
+		{Name: "cookie-half-valid-sR3Wm2", Cookie: ck("$s:sR3Wm2"), Authn: unset},
+		{Name: "cookie-half-valid-sR4W5", Cookie: ck("$s:sR4W5"), Authn: unset},
+		{Name: "cookie-half-valid-sR100W2", Cookie: ck("$s:sR100W2"), Authn: unset},
+		{Name: "cookie-half-valid-sR5W3", Cookie: ck("$s:sR5W3"), Authn: unset},
+		{Name: "cookie-half-valid-sR0W3", Cookie: ck("$s:sR0W3"), Authn: unset},
+		{Name: "cookie-half-valid-sRm1W3", Cookie: ck("$s:sRm1W3"), Authn: unset},
+		{Name: "cookie-half-valid-sRm100W4", Cookie: ck("$s:sRm100W4"), Authn: unset},
 		{Name: "cookie-unknown", Cookie: ck("AAAAAAAAAAAAAAAAAAAAAAAAAAAAAAAAAAAAAAAAAAA"), Authn: unset},
 		{Name: "cookie-empty-value", Cookie: ck(""), Authn: unset},
 		{Name: "cookie-other-name", Cookie: "Other=$s:sAdmin", Authn: unset},
@@ -784,9 +844,13 @@ func credentials(full bool) []cred {
 		{Name: "bridge", Bridge: true, Authn: unset},
 	}
 	// authenticator returning every permission pair of the alphabet (diagonal in quick, all pairs in thorough)
-	for _, r := range permAlpha {
-		for _, w := range permAlpha {
-			if full || r == w || (r == pUser && w == pAdmin) || (r == pAdmin && w == pAnyone) || (r == 5 && w == pAdmin) || (r == pAdmin && w == pNotSupported) {
+	quickPair := map[tok]bool{{pUser, pAdmin}: true, {pAdmin, pAnyone}: true, {5, pAdmin}: true, {pAdmin, pNotSupported}: true}
+	for _, hv := range halfValid {
+		quickPair[hv.T] = true
+	}
+	for _, r := range grantAlpha {
+		for _, w := range grantAlpha {
+			if full || r == w || quickPair[tok{r, w}] {
 				l = append(l, cred{Name: fmt.Sprintf("authn-tok(%d,%d)", r, w), Authn: authnSpec{Kind: "tok", R: r, W: w}})
 			}
 		}
@@ -803,6 +867,7 @@ func credentials(full bool) []cred {
 		cred{Name: "admin-key+authn-error", Authz: "Bearer kAdmin", Authn: authnSpec{Kind: "err"}},
 		cred{Name: "unknown-key+authn-error", Authz: "Bearer nosuchkey", Authn: authnSpec{Kind: "err"}},
 		cred{Name: "bridge+user-key", Bridge: true, Authz: "Bearer kUser", Authn: unset},
+		cred{Name: "half-valid-cookie+authn-admin", Cookie: ck("$s:sR2W100"), Authn: authnSpec{Kind: "tok", R: pAdmin, W: pAdmin}},
 		cred{Name: "expired-cookie+authn-nil", Cookie: ck("$s:sOld"), Authn: authnSpec{Kind: "nil"}},
 	)
 	return l
@@ -914,9 +979,12 @@ func phaseTable(c *vlib.Ctx, w *world) {
 		block(c, w, "table", base, func(emit func(*reqCase)) {
 			for _, m := range methods {
 				for _, cr := range creds {
-					for _, o := range tableOrigins {
-						if o != "" && !full && h.Kind == "wrap" && h.Rr != h.Rw && cr.Authn.Kind == "tok" {
-							continue // quick: origins x authenticator pairs only on the diagonal handlers
+					for oi, o := range tableOrigins {
+						if o != "" && !full && h.Kind == "wrap" && h.Rr != h.Rw {
+							continue // quick: origins in the table only on the diagonal handlers (the origins phase has its own handlers)
+						}
+						if full && oi > 5 && h.Kind == "wrap" && h.Rr != h.Rw {
+							continue // thorough: the whole origin alphabet on the diagonal handlers, its first entries on the others
 						}
 						emit(mkReq(h, m, cr, o, hostPort))
 					}
@@ -1159,6 +1227,37 @@ func phaseBridge(c *vlib.Ctx, w *world) {
 
 // ---------- histories (BFS) ----------
 
+// halfValidAlphabet: sessions for tokens that are valid only for the class of the request that
+// obtains them (the other side out of range or a special constant), then presented as a cookie
+// for the other class, with time, cleaning and reset in between.
+func halfValidAlphabet(c *vlib.Ctx) []op {
+	hU, hA, hD := wrapH(pUser, pUser), wrapH(pAdmin, pAdmin), wrapH(pDynamic, pDynamic)
+	req := func(h hdl, method string, cr cred) *reqCase { return mkReq(h, meth{method, ""}, cr, "", hostPort) }
+	authn := func(r, w int) cred { return cred{Authn: authnSpec{Kind: "tok", R: r, W: w}} }
+	cookie := func(n string) cred { return cred{Cookie: ck("$s:" + n), Authn: unset} }
+	l := []op{
+		{Op: "req", Req: req(hA, "POST", cookie("s3"))},
+		{Op: "req", Req: req(hU, "GET", cookie("s3"))},
+		{Op: "req", Req: req(hU, "GET", cookie("s4"))},
+		{Op: "req", Req: req(hD, "DELETE", cookie("s4"))},
+		{Op: "req", Req: req(hD, "GET", authn(pUser, 100)), Save: "s3"},
+		{Op: "req", Req: req(hD, "POST", authn(-100, pAdmin)), Save: "s4"},
+		{Op: "req", Req: req(hU, "GET", authn(pAdmin, pNotFound)), Save: "s3"},
+		{Op: "req", Req: req(hU, "PUT", authn(pNotSupported, pUser)), Save: "s4"},
+		{Op: "pass", D: "4m"},
+		{Op: "pass", D: "6m"},
+		{Op: "clean"},
+	}
+	if !c.Quick() {
+		l = append(l,
+			op{Op: "req", Req: req(hA, "GET", authn(5, pSelf)), Save: "s3"}, // invalid for the obtaining class itself
+			op{Op: "req", Req: req(hA, "PUT", cookie("s3"))},
+			op{Op: "req", Req: &reqCase{Handler: resetHandler.Path, Kind: "reset", Rr: pAnyone, Rw: pNotSupported, Method: "GET", Host: hostPort, Cookie: ck("$s:s3"), Authn: unset}},
+		)
+	}
+	return l
+}
+
 func histAlphabet(c *vlib.Ctx) []op {
 	hU, hA, hD := wrapH(pUser, pUser), wrapH(pAdmin, pAdmin), wrapH(pDynamic, pDynamic)
 	req := func(h hdl, method string, cr cred) *reqCase { return mkReq(h, meth{method, ""}, cr, "", hostPort) }
@@ -1227,12 +1326,15 @@ func implCanon(w *world) string {
 }
 
 func phaseHistories(c *vlib.Ctx, w *world) {
-	c.Scenario("histories")
-	alpha := histAlphabet(c)
-	maxDepth := vlib.Pick(c, 5, 6)
-	c.Extra("history_alphabet", int64(len(alpha)))
+	bfs(c, w, "histories", histAlphabet(c), vlib.Pick(c, 5, 6))
+	bfs(c, w, "histories-half-valid-tokens", halfValidAlphabet(c), vlib.Pick(c, 4, 5))
+}
+
+func bfs(c *vlib.Ctx, w *world, name string, alpha []op, maxDepth int) {
+	c.Scenario(name)
+	c.Extra(name+"_alphabet", int64(len(alpha)))
 	seen := map[string]bool{}
-	runHistory(w, "histories", nil)
+	runHistory(w, name, nil)
 	seen[w.m.canon()+"|"+implCanon(w)] = true
 	frontier := [][]op{nil}
 	completed := 0
@@ -1241,13 +1343,13 @@ func phaseHistories(c *vlib.Ctx, w *world) {
 		var next [][]op
 		for _, hist := range frontier {
 			if c.Expired() {
-				c.Extra("history_depth_completed", int64(completed))
+				c.Extra(name+"_depth_completed", int64(completed))
 				return
 			}
 			for _, a := range alpha {
 				h2 := append(append([]op{}, hist...), a)
 				t0 := time.Now()
-				runHistory(w, "histories", h2)
+				runHistory(w, name, h2)
 				if time.Since(t0) > 40*time.Second {
 					c.EngineError("history took %s: logical-time margins unsafe", time.Since(t0))
 				}
@@ -1271,14 +1373,74 @@ func phaseHistories(c *vlib.Ctx, w *world) {
 			}
 		}
 		completed = depth
-		c.Extra(fmt.Sprintf("history_new_states_depth_%d", depth), int64(len(next)))
+		c.Extra(fmt.Sprintf("%s_new_states_depth_%d", name, depth), int64(len(next)))
 		frontier = next
 	}
-	c.Extra("history_depth_completed", int64(completed))
-	c.Extra("history_states", int64(len(seen)))
+	c.Extra(name+"_depth_completed", int64(completed))
+	c.Extra(name+"_states", int64(len(seen)))
 	for _, s := range sampleHist {
-		c.Sample(map[string]any{"phase": "histories", "history": s})
+		c.Sample(map[string]any{"phase": name, "history": s})
 	}
+}
+
+// phaseUnwritableConfig: dev mode is switched off / API keys are removed through the real config
+// setters while the configuration file cannot be saved. Afterwards nobody has full access any
+// more and a removed key no longer works.
+func phaseUnwritableConfig(c *vlib.Ctx, w *world) {
+	c.Scenario("unwritable-config")
+	hS, hU, hA := wrapH(pSelf, pSelf), wrapH(pUser, pUser), wrapH(pAdmin, pAdmin)
+	req := func(h hdl, method, authz string) op {
+		return op{Op: "req", Req: &reqCase{Handler: h.Path, Kind: h.Kind, Rr: h.Rr, Rw: h.Rw, Method: method, Host: hostPort, Authz: authz, Authn: unset}}
+	}
+	kA := keySpec{Key: "kA", Read: "admin", Write: "admin"}
+	kB := keySpec{Key: "kB", Read: "user", Write: "user"}
+	probes := func(authzs ...string) []op {
+		var l []op
+		for _, a := range authzs {
+			for _, h := range []hdl{hS, hA, hU} {
+				for _, m := range []string{"GET", "POST"} {
+					l = append(l, req(h, m, a))
+				}
+			}
+		}
+		return l
+	}
+	block := op{Op: "cfg-unwritable"}
+	unblock := op{Op: "cfg-writable"}
+	var fams [][]op
+	for _, pre := range [][]op{nil, {{Op: "keys", Keys: []keySpec{kA, kB}}}} {
+		// dev mode on, file blocked, dev mode off
+		h := append(append([]op{}, pre...), op{Op: "dev", On: true})
+		h = append(h, probes("")...)
+		h = append(h, block, op{Op: "dev", On: false})
+		h = append(h, probes("", "Bearer kA", "Bearer kB")...)
+		h = append(h, unblock)
+		h = append(h, probes("")...)
+		fams = append(fams, h)
+	}
+	for _, after := range [][]keySpec{nil, {kB}, {{Key: "kA", Read: "user", Write: "user"}, kB}} {
+		// keys configured, file blocked, key removed / downgraded
+		h := []op{{Op: "keys", Keys: []keySpec{kA, kB}}}
+		h = append(h, probes("Bearer kA")...)
+		h = append(h, block, op{Op: "keys", Keys: after})
+		h = append(h, probes("Bearer kA", "Bearer kB", "")...)
+		h = append(h, unblock, op{Op: "keys", Keys: after})
+		h = append(h, probes("Bearer kA", "Bearer kB")...)
+		fams = append(fams, h)
+	}
+	// dev mode switched off while blocked, with the file blocked from the start
+	fams = append(fams, append([]op{block, {Op: "dev", On: true}, {Op: "dev", On: false}}, probes("")...))
+	for _, h := range fams {
+		runHistory(w, "unwritable-config", h)
+		c.Add(1, int64(len(h)), 1)
+		c.NontrivialN(1)
+	}
+	w.fresh()
+	var sm []string
+	for _, o := range fams[2][:3] {
+		sm = append(sm, o.String())
+	}
+	c.Sample(map[string]any{"phase": "unwritable-config", "history": strings.Join(sm, " ; ") + " ; makeConfigFileUnwritable ; keys[] ; req{... Bearer kA} ..."})
 }
 
 // ---------- main ----------
@@ -1309,7 +1471,7 @@ func setup(c *vlib.Ctx) (*world, func()) {
 	if n := modules.VerifRemoveEventHooks("config", "config change", "api"); n != 1 {
 		c.EngineError("expected to detach exactly one api hook from config change, detached %d", n)
 	}
-	w := &world{c: c, handler: api.VerifHandler(), errCh: errCh}
+	w := &world{c: c, handler: api.VerifHandler(), errCh: errCh, dataDir: tmp}
 	theWorld = w
 	return w, func() {
 		_ = modules.Shutdown()
@@ -1355,7 +1517,7 @@ func main() {
 		for _, ph := range []struct {
 			name string
 			f    func(*vlib.Ctx, *world)
-		}{{"table", phaseTable}, {"endpoints", phaseEndpoints}, {"devmode+origins", phaseDevAndOrigins}, {"header-strings", phaseHeaderStrings}, {"bridge", phaseBridge}, {"histories", phaseHistories}} {
+		}{{"table", phaseTable}, {"endpoints", phaseEndpoints}, {"devmode+origins", phaseDevAndOrigins}, {"header-strings", phaseHeaderStrings}, {"bridge", phaseBridge}, {"unwritable-config", phaseUnwritableConfig}, {"histories", phaseHistories}} {
 			t0, s0 := time.Now(), w.steps
 			ph.f(c, w)
 			c.Extra("phase "+ph.name, fmt.Sprintf("%d requests, %.1fs", w.steps-s0, time.Since(t0).Seconds()))
